@@ -167,6 +167,7 @@ def run(ctx):
                     res.violation("C15:dir-info-not-menu", "+INFO lines of a '$' listing differ from the plain menu lines", {"dir": sel},
                                   observed=infos[:4], required=menu[:4], replay={"name": "dir", "data_len": 0, "sidecars": {}})
         _virtual_items(ctx, res)
+        _histories(ctx, res)
         _decompressed_items(ctx, res)
         outs = ctx.driver.run(model_lines)
         for (inp, impl), o in zip(checks, outs):
@@ -180,6 +181,92 @@ def run(ctx):
         tree.close()
     res.degraded = list(pyg.degraded)
     return res
+
+
+def _histories(ctx, res):
+    """Item information over a history, one server process throughout: (a) a '$' listing served from the directory cache
+    (written by whatever protocol came first) is the '$' listing generated without a cache -- sizes of 0, empty and missing
+    sidecars included; (b) a sidecar that appears or disappears between two requests is reflected by the next '!' and '$',
+    even when the directory's modification time is the same whole second (forced: the time stamp is put back)."""
+    rng = ctx.rng
+    tree = pyg.Tree()
+    try:
+        def mk(d):
+            tree.write(d + "/placeholder.txt", b"")                      # size 0
+            tree.write(d + "/one.txt", b"1")
+            tree.write(d + "/k.bin", bytes(3000))
+            tree.write(d + "/sub/inner.txt", b"i")
+            tree.write(d + "/one.txt.abstract", b"about one\n")
+            tree.write(d + "/placeholder.txt.abstract", b"")              # an empty sidecar
+            tree.write(d + "/note.html", b"<html><head><title>Note</title></head></html>")
+        def mask(b):
+            return re.sub(rb" Mod-Date: [^\r\n]*\r\n", b"", b or b"")
+        for hname, hl in (("shipped", None), ("dir", pyg.DIR_HANDLERS)):
+            for first in ("gopher", "http", "gopherp$", "gemini"):
+                d = "c-%s-%s" % (hname, first.replace("$", "S"))
+                mk(d)
+                sel = "/" + d
+                cfg0 = pyg.make_config(tree.root, hl, **{"handlers.dir.DirHandler|cachetime": "0"})
+                cfgc = pyg.make_config(tree.root, hl, **{"handlers.dir.DirHandler|cachetime": "600"})
+                want = mask(pyg.request(reqs.build("gopherp", sel, gplus="$"), cfg0).out)
+                p_, g_ = ("gopherp", "$") if first == "gopherp$" else (first, "+")
+                pyg.request(reqs.build(p_, sel, gplus=g_), cfgc, tls=reqs.TLS[p_])                       # writes the cache file
+                cached = os.path.exists(tree.path(d + "/" + cfgc.get("handlers.dir.DirHandler", "cachefile")))
+                for nth in (2, 3):
+                    got = mask(pyg.request(reqs.build("gopherp", sel, gplus="$"), cfgc, reset=(nth == 2)).out)
+                    res.evaluations += 1
+                    res.count("cached-dollar:" + ("cache-file" if cached else "no-cache-file"))
+                    res.nontrivial.add(("cached-$", hname, first, nth))
+                    if got != want:
+                        i_ = next((i for i, (x, y) in enumerate(zip(got, want)) if x != y), min(len(got), len(want)))
+                        res.violation("C15:cached-listing-info-differs", "the item information of a '$' listing served from the directory cache differs from the one generated",
+                                      {"dir": sel, "handlers": hname, "cache_written_by": first, "request_number": nth},
+                                      observed=got[max(0, i_ - 80):i_ + 80], required=want[max(0, i_ - 80):i_ + 80],
+                                      replay={"history": "cached-$", "handlers": hname, "first": first})
+            # (b) sidecars appearing / disappearing, directory time stamp held
+            d = "s-" + hname
+            mk(d)
+            sel = "/" + d
+            cfg0 = pyg.make_config(tree.root, hl, **{"handlers.dir.DirHandler|cachetime": "0"})
+            item = sel + "/one.txt"
+            dpath = tree.path(d)
+
+            def blocks_of(out):
+                return sorted(set(re.findall(rb"^\+([A-Z0-9]+):", out or b"", re.M)))
+            pyg.reset_globals()
+            steps = [("add", ".3d", b"3d data\n"), ("add", ".keywords", b"kw\n"), ("remove", ".abstract", None), ("add", ".abstract", b"back again\n"), ("remove", ".3d", None)]
+            present = {".abstract"}
+            for op, ext, data in steps:
+                before = os.stat(dpath)
+                pyg.request(reqs.build("gopherp", item, gplus="!"), cfg0, reset=False)
+                pyg.request(reqs.build("gopherp", sel, gplus="$"), cfg0, reset=False)
+                if op == "add":
+                    tree.write(d + "/one.txt" + ext, data)
+                    present.add(ext)
+                else:
+                    os.unlink(tree.path(d + "/one.txt" + ext))
+                    present.discard(ext)
+                os.utime(dpath, ns=(before.st_atime_ns, before.st_mtime_ns))          # the same time stamp as before the change
+                want_names = sorted({b"INFO", b"ADMIN", b"VIEWS"} | {BLOCK[e].encode() for e in present})
+                r1 = pyg.request(reqs.build("gopherp", item, gplus="!"), cfg0, reset=False)
+                r2 = pyg.request(reqs.build("gopherp", sel, gplus="$"), cfg0, reset=False)
+                res.evaluations += 2
+                res.nontrivial.add(("sidecar-history", hname, op, ext))
+                got1 = blocks_of(r1.out)
+                # the item's part of the '$' listing
+                part = b""
+                for chunk in (r2.out or b"").split(b"+INFO: ")[1:]:
+                    if chunk.split(b"\t")[1:2] == [item.encode()]:
+                        part = b"+INFO: " + chunk
+                got2 = blocks_of(part)
+                for form, got in (("!", got1), ("$", got2)):
+                    if got != want_names:
+                        res.violation("C15:sidecar-block:history", "after a sidecar file was added or removed the item's blocks are not those of the files on disk",
+                                      {"item": item, "handlers": hname, "change": op + " " + ext, "request": form, "sidecars_on_disk": sorted(present)},
+                                      observed=got, required=want_names, replay={"history": "sidecars", "handlers": hname})
+    finally:
+        tree.close()
+        pyg.reset_globals()
 
 
 def split_items(body):
@@ -316,6 +403,9 @@ def _decompressed_items(ctx, res):
 
 
 def replay(data):
+    if data["violation"]["replay"].get("history"):
+        print("history check of harness/props/c15.py _histories:", data["violation"]["replay"], data["violation"]["input"])
+        return 0
     if data["violation"]["replay"].get("virtual"):
         return _replay_virtual(data["violation"]["replay"])
     rp = data["violation"]["replay"]
